@@ -18,6 +18,7 @@
 package parser
 
 import (
+	"database/sql"
 	"encoding/json"
 
 	"github.com/golang/protobuf/ptypes/any"
@@ -84,7 +85,7 @@ func ConvertToProto(intreeLog *undo.BranchUndoLog) *BranchUndoLog {
 				}
 
 				for _, col := range row.Columns {
-					anyValue, err := convertInterfaceToAny(col.GetActualValue())
+					anyValue, err := convertInterfaceToAny(textAsText(col.ColumnType, col.GetActualValue()))
 					if err != nil {
 						continue
 					}
@@ -116,7 +117,7 @@ func ConvertToProto(intreeLog *undo.BranchUndoLog) *BranchUndoLog {
 				}
 
 				for _, col := range row.Columns {
-					anyValue, err := convertInterfaceToAny(col.Value)
+					anyValue, err := convertInterfaceToAny(textAsText(col.ColumnType, col.Value))
 					if err != nil {
 						continue
 					}
@@ -244,6 +245,21 @@ func convertAnyToInterface(anyValue *any.Any) (interface{}, error) {
 		return value, uErr
 	}
 	return value, nil
+}
+
+// textAsText the value of a text column is carried as text (as the json parser does): held as bytes it
+// would be written as base64 and read back as that base64 text
+func textAsText(columnType types.JDBCType, v interface{}) interface{} {
+	switch columnType {
+	case types.JDBCTypeChar, types.JDBCTypeVarchar, types.JDBCTypeLongVarchar:
+		switch b := v.(type) {
+		case []byte:
+			return string(b)
+		case sql.RawBytes:
+			return string(b)
+		}
+	}
+	return v
 }
 
 func convertInterfaceToAny(v interface{}) (*any.Any, error) {
